@@ -665,6 +665,9 @@ func checkC43(env *kernel.Env) {
 			}
 			// the two readers of a table's column list agree on every column's key marker
 			for _, tn := range sortedKeys(cat.tables) {
+				if s != sessions[0] {
+					break // (one reader is enough for this comparison; it is the costly one)
+				}
 				sc := s.Exec("SHOW COLUMNS FROM " + tn)
 				ic := s.Exec(fmt.Sprintf("SELECT column_name, column_key FROM information_schema.columns WHERE table_schema = 'd' AND table_name = '%s' ORDER BY ordinal_position", tn))
 				if sc.Err != nil || ic.Err != nil {
